@@ -60,10 +60,10 @@ _core_prop("C03", "Values() is a complete, duplicate-free, causally ordered line
     "Kernel-checked: in every reachable state with a strict total order on the entries present (always for the hash tie-break, for the default ordering without ties) Values() is a permutation of the entries without duplicates, sorted, with no entry before one of its predecessors, and a function of the entry set only. Correspondence: Values()/ToSnapshot().Values compared with the model after every operation; valuesOk evaluated on the implementation.",
     CORE_NOTE)
 _core_prop("C04", "Every appended entry dominates the log it was appended to",
-    r"append/.*",
+    r"(append/.*|append\..*)",
     "Lean 4: theorems on the transcription of Append (predecessors = heads, clock above every entry via every_entry_below_some_head, single new head, references inside the log and disjoint from predecessors)",
-    "Kernel-checked for every reachable log, writer and pointer count (any integer): next = the heads (list: reversed sorted heads), clock id = the log's writer key, clock time strictly above every entry incl. merged ones, the entry becomes the single head, skip references are distinct entries of the log and not predecessors, every entry of the log is in the new entry's causal past, and there are at most floor(log2(max pc 1))+1 skip references (refs_logarithmic).",
-    CORE_NOTE)
+    "Kernel-checked for every reachable log, writer and pointer count (any integer): next = the heads (list: reversed sorted heads), clock id = the log's writer key, clock time strictly above every entry incl. merged ones, the entry becomes the single head, skip references are distinct entries of the log and not predecessors, every entry of the log is in the new entry's causal past, and there are at most floor(log2(max pc 1))+1 skip references (refs_logarithmic). The conc stream adds controlled interleavings of appends with merges and identity changes on the same log: every appended entry is compared with the model's (next, refs, clock), and its clock id must be the key of the identity in force when the append held the lock.",
+    CORE_NOTE, extra_streams=[dict(name="conc", quick=["-n", "250"], thorough=["-n", "3000", "-thorough"], shards_quick=4, shards_thorough=14)])
 _core_prop("C05", "The log is append-only: entries never change or vanish",
     r"(join|append|setid|exchange)/(entries|len|values|snapshot\.values)",
     "Lean 4: monotonicity of every step of the system model (step_mono), sorted-sublist lemma (values_sublist); known finding lww-tie-order proved as a concrete counterexample",
